@@ -14,6 +14,11 @@ Tie:  synthetic receivers (1-3 tubes, ragged panels, multipliers, 1D/2D/3D tubes
 Search: metamorphic predicates on the real code, independent of the model: rotation of the stored
       tensors, compressive states, scale-up, longer service, volume linearity, PIA uniaxial law,
       zero-time power law, aggregation (ragged panels, multipliers), range (0,1].
+      Also asserted: the uniaxial Weibull law for the six Batdorf models along the polar axis of their own
+      grid (exact, same-grid kbar; eigvalsh replaced by "take the diagonal" so that the tension pairs with
+      l = cos A) and for all eight models along the coordinate axes within the quadrature accuracy (5 %)
+      (signature c05:uniaxial:<model>); Batdorf models with repeated principal values, diag vs rotated
+      (signature c05:repeated-principal-values).
 """
 import json
 import math
@@ -217,20 +222,14 @@ def rand_rot(rng):
 
 
 def spread(p, frac=0.04):
-    """keep the principal values apart (the Batdorf NaN-drop is sensitive to repeated values,
-    see `probe_repeated`)"""
-    p = np.sort(np.array(p, dtype=float))
-    gap = frac * max(1.0, np.max(np.abs(p)))
-    if p[1] - p[0] < gap:
-        p[0] = p[1] - gap
-    if p[2] - p[1] < gap:
-        p[2] = p[1] + gap
-    return p
+    """principal values in ascending order (they used to be kept apart because of the NaN-drop defect F29,
+    repaired by a902588; repeated values are generated on purpose now, kind "repeated")"""
+    return np.sort(np.array(p, dtype=float))
 
 
 def principal_kind(rng, kind, scale):
     if kind == "mixed":
-        kind = rng.choice(["generic", "generic", "tensile", "cutoff", "nearcut", "compressive"])
+        kind = rng.choice(["generic", "generic", "tensile", "cutoff", "nearcut", "compressive", "repeated"])
     if kind == "generic":
         p2 = rng.uniform(0.2, 1.0) * scale
         p = [rng.uniform(-1.5, 0.5) * p2, rng.uniform(-0.3, 0.9) * p2, p2]
@@ -243,6 +242,9 @@ def principal_kind(rng, kind, scale):
     elif kind == "nearcut":     # just below / above the threshold
         p2 = rng.uniform(0.1, 0.5) * scale
         p = [-rng.choice([2.9, 2.99, 3.01, 3.1]) * p2, rng.uniform(-1.0, 0.8) * p2, p2]
+    elif kind == "repeated":    # two or three equal principal values (equibiaxial, axisymmetric, hydrostatic)
+        a, b = rng.uniform(0.2, 1.0) * scale, rng.uniform(-0.5, 0.9) * rng.uniform(0.2, 1.0) * scale
+        p = [[a, a, b], [a, b, b], [a, a, a]][int(rng.integers(3))]
     elif kind == "compressive":
         p2 = -rng.uniform(0.0, 0.3) * scale
         p = [p2 - rng.uniform(0.3, 1.0) * scale, p2 - rng.uniform(0.05, 0.3) * scale, p2]
@@ -781,6 +783,7 @@ def metamorphic(ctx, rng):
                 S[t, e, 0] = sym_to6(sig[t, e] * np.outer(nvec, nvec))
         tc = dict(geom=geom, times=times, S=S.tolist(), T=np.full((nt, ne, 1), T).tolist(), mult=1)
         jobs.append(dict(model="PIA", variant=variant, cares=bool(i % 2), tot=0.0, pred="uniaxial", tube=tc, T=T, sigma=sig.tolist()))
+    jobs += special_jobs(rng, quick)
     fails = []
     for j in jobs:
         with warnings.catch_warnings():
@@ -792,25 +795,126 @@ def metamorphic(ctx, rng):
     return jobs, fails
 
 
-def probe_repeated(ctx, rng):
-    """observation (not asserted): Batdorf models under rotation when two principal values coincide.
-    `sqrt(sigma^2 - sigma_n^2)` is NaN from rounding on some orientations, `np.nansum` drops them."""
-    worst = {}
+def pred_repeated(p):
+    """Batdorf model, repeated principal values (equibiaxial, hydrostatic, axisymmetric states): the state given
+    as a diagonal tensor and in rotated frames must give the same element log-reliability (1e-8 relative).
+    (Before a902588 sqrt(sigma^2 - sigma_n^2) was NaN from rounding on some orientations and np.nansum
+    dropped them: 0.2-5 % spread.)"""
+    mdl = _mk(p)
+    geom = dict(ro=10.0, t=1.0, h=10.0, nr=2, nt=2, nz=2, dim=1)
+    vals = []
+    for Q in p["Qs"]:
+        Q = np.array(Q, dtype=float)
+        S = np.array(sym_to6(Q @ np.diag(p["principal"]) @ Q.T)).reshape(1, 1, 1, 6)
+        tc = dict(geom=geom, times=[0.0], S=S.tolist(), T=[[[1000.0]]], mult=1)
+        a, ea = safe_run_tube(mdl, p["variant"], tc, 0.0)
+        if ea:
+            return ["%s raised: %s" % (MCLASS[p["model"]], ea)]
+        vals.append(float(a["elem"][0]))
+    v = np.array(vals)
+    if not np.all(np.isfinite(v)) or not np.all(v < 0):
+        return ["principal values %s: element log-reliability %s (%s)" % (p["principal"], vals, MCLASS[p["model"]])]
+    spread = float((np.max(v) - np.min(v)) / np.max(np.abs(v)))
+    if not spread <= REL_ROT:
+        return ["principal values %s in %d frames (first is the diagonal one): element log-reliability varies by %.3g relative (%s): %s" % (
+            p["principal"], len(vals), spread, MCLASS[p["model"]], ["%.9g" % x for x in vals])]
+    return []
+
+
+def uniaxial_ratios(p):
+    """log R / (-V (sigma/sigma0)^m) for uniaxial tension along each coordinate axis, through the tube"""
+    mdl = _mk(p)
+    geom = dict(ro=10.0, t=1.0, h=10.0, nr=2, nt=2, nz=2, dim=1)
+    mat = material(p["variant"])
+    s, m = float(mat.strength(p["T"])), float(mat.modulus(p["T"]))
+    ratios = []
+    for ax in range(3):
+        d = [0.0, 0.0, 0.0]
+        d[ax] = p["sigma"]
+        S = np.array(sym_to6(np.diag(d))).reshape(1, 1, 1, 6)
+        tc = dict(geom=geom, times=[0.0], S=S.tolist(), T=[[[p["T"]]]], mult=1)
+        a, ea = safe_run_tube(mdl, p["variant"], tc, 0.0)
+        ratios.append(float(a["elem"][0] / (-(p["sigma"] / s) ** m * a["volumes"][0])) if a else float("nan"))
+    return ratios
+
+
+def pred_uniaxial_any(p):
+    """any model, uniaxial tension along a coordinate axis: log R / (-V (sigma/sigma0)^m) within the
+    quadrature accuracy `tol` of 1"""
+    ratios = uniaxial_ratios(p)
+    if not all(abs(r - 1.0) <= p["tol"] for r in ratios):
+        return ["uniaxial tension %g: log R / (-V (sigma/sigma0)^m) = %s, not within %g of 1 (%s)" % (
+            p["sigma"], ["%.6f" % r for r in ratios], p["tol"], MCLASS[p["model"]])]
+    return []
+
+
+def pred_uniaxial_polar(p):
+    """Batdorf model, uniaxial tension along the polar axis of its own orientation grid (the principal triple
+    (sigma, 0, 0) paired with l = cos A: `eigvalsh` is replaced by "take the diagonal" for this call), kbar from
+    the same grid: log R = -V (sigma/sigma0)^m exactly (1e-9) -- theorem batdorf_uniaxial"""
+    from srlife import damage
+    mdl = _mk(p)
+    mat = material(p["variant"])
+    s, m = float(mat.strength(p["T"])), float(mat.modulus(p["T"]))
+
+    class LA:
+        def __getattr__(self, name):
+            return getattr(np.linalg, name)
+
+        def eigvalsh(self, a, *args, **kw):
+            return np.stack([a[..., 0, 0], a[..., 1, 1], a[..., 2, 2]], axis=-1)
+
+    saved = damage.la
+    damage.la = LA()
+    try:
+        out = mdl.calculate_element_log_reliability(np.zeros(1), np.array([[[p["sigma"], 0.0, 0.0, 0.0, 0.0, 0.0]]]),
+                                                    np.array([[p["T"]]]), np.array([p["V"]]), mat, 0.0)
+    except Exception as e:
+        return ["%s raised: %s: %s" % (MCLASS[p["model"]], type(e).__name__, e)]
+    finally:
+        damage.la = saved
+    got, want = float(np.ravel(out)[0]), -(p["sigma"] / s) ** m * p["V"]
+    if not common.close(got, want, rel=1e-9, abs_=0.0):
+        return ["uniaxial tension %g along the polar axis of the model's grid (%dx%d): log R = %r, uniaxial Weibull law -V (sigma/sigma0)^m = %r, ratio %.6f (%s)" % (
+            p["sigma"], mdl.nalpha, mdl.nbeta, got, want, got / want, MCLASS[p["model"]])]
+    return []
+
+
+PREDS["repeated"] = pred_repeated
+PREDS["uniaxial_any"] = pred_uniaxial_any
+PREDS["uniaxial_polar"] = pred_uniaxial_polar
+
+
+def fixed_rot(axis, angle):
+    """Rodrigues rotation (deterministic frames of the repeated-value predicate)"""
+    k = np.array(axis, dtype=float)
+    k /= np.linalg.norm(k)
+    K = np.array([[0, -k[2], k[1]], [k[2], 0, -k[0]], [-k[1], k[0], 0]])
+    return np.eye(3) + math.sin(angle) * K + (1 - math.cos(angle)) * (K @ K)
+
+
+def special_jobs(rng, quick):
+    """uniaxial laws for every model, repeated principal values for the Batdorf models"""
+    jobs = []
+    vs = variants()
     for name, _, indep in MODELS:
+        for k in range(len(vs) if not quick else 1):
+            variant = vs[(k + len(name)) % len(vs)]
+            jobs.append(dict(pred="uniaxial_any", signature="c05:uniaxial:" + name, model=name, variant=variant, cares=True,
+                             tot=0.0, sigma=float(rng.uniform(40.0, 150.0)), T=float(rng.uniform(TMIN, TMAX)), tol=0.05))
         if indep:
             continue
-        mdl = make_model(name)
-        geom = dict(ro=10.0, t=1.0, h=10.0, nr=2, nt=2, nz=2, dim=1)
-        vals = []
-        for k in range(4):
-            Q = np.eye(3) if k == 0 else rand_rot(rng)
-            S = np.array(sym_to6(Q @ np.diag([100.0, 100.0, 0.0]) @ Q.T)).reshape(1, 1, 1, 6)
-            tc = dict(geom=geom, times=[0.0], S=S.tolist(), T=[[[1000.0]]], mult=1)
-            a, ea = safe_run_tube(mdl, "base", tc, 0.0)
-            vals.append(float(a["elem"][0]) if a else float("nan"))
-        v = np.array(vals)
-        worst[name] = float((np.max(v) - np.min(v)) / np.max(np.abs(v)))
-    return worst
+        for k, variant in enumerate(vs):
+            na, nb = (None, None) if k == 0 else (int(rng.integers(3, 40)), int(rng.integers(2, 40)))
+            jobs.append(dict(pred="uniaxial_polar", signature="c05:uniaxial:" + name, model=name, variant=variant, cares=bool(k % 2 == 0),
+                             na=na, nb=nb, tot=0.0, sigma=float(rng.uniform(40.0, 150.0)), T=float(rng.uniform(TMIN, TMAX)),
+                             V=float(rng.uniform(0.5, 20.0))))
+        # equibiaxial, hydrostatic, axisymmetric tube wall (hoop = axial, small radial compression)
+        for principal in ([100.0, 100.0, 0.0], [100.0, 100.0, 100.0], [80.0, 80.0, -5.0]):
+            Qs = [np.eye(3), fixed_rot([1, 2, 3], 0.7), fixed_rot([0, 0, 1], 0.3), fixed_rot([3, -1, 2], 1.9), rand_rot(rng), rand_rot(rng)]
+            jobs.append(dict(pred="repeated", signature="c05:repeated-principal-values", model=name, variant=vs[0], cares=True, tot=0.0,
+                             principal=principal, Qs=[np.array(Q).tolist() for Q in Qs]))
+    return jobs
 
 
 def size_of(j):
@@ -828,7 +932,7 @@ def run(ctx):
                    "numpy.linalg.eigvalsh returns the sorted eigenvalues (a function of the similarity class): hypothesis of frame_indifferent",
                    "IEEE rounding between the Float and the real instance of the model; exp underflow"]
     ctx.assumptions = ["material look-ups (interp1d of the XML tables) are inputs of the model",
-                       "principal values of stored states are kept apart in generated Batdorf cases (see note on repeated values)"]
+                       "the uniaxial law of WNTSA and of the Batdorf models along the non-polar axes holds to quadrature accuracy only (asserted within 5 %)"]
     thm_ok = common.lean_stage(ctx, [("SrProps.C05", "SrProps/C05.lean", "SrProps.C05")])
     drv = common.LeanDriver(["SrModel.Ceramic"])
     rng = np.random.default_rng(ctx.rng.getrandbits(63))
@@ -843,13 +947,12 @@ def run(ctx):
                                                                           (list(mism.values())[:1] or crashed[:1])))
     jobs, fails = metamorphic(ctx, rng)
     ctx.obligation("property predicates on real executions (rotation, compressive, scale, time, volume, uniaxial, power law, aggregation, range)",
-                   not fails, "%d of %d fail; first: %s" % (len(fails), len(jobs), fails[0][1][:1] if fails else ""))
+                   not fails, "also uniaxial (polar axis exact, coordinate axes 5 %%) and repeated principal values; %d of %d fail; first: %s" % (len(fails), len(jobs), fails[0][1][:1] if fails else ""))
     ctx.extra["traces_validated_against_impl"] = ctx.evals
-    worst = probe_repeated(ctx, rng)
-    ctx.extra["probe_repeated_principal_values_rel_spread_under_rotation"] = worst
-    ctx.notes.append("observation (not asserted, outside the generator): with two equal principal values (100,100,0 MPa) the six Batdorf models "
-                     "change element log-reliability under rotation of the axes by the relative amounts recorded in "
-                     "probe_repeated_principal_values_rel_spread_under_rotation (NaN from sqrt(sigma^2-sigma_n^2) dropped by np.nansum)")
+    with warnings.catch_warnings():
+        warnings.simplefilter("ignore")
+        ctx.extra["uniaxial_ratio_logR_over_weibull_by_axis"] = {
+            name: uniaxial_ratios(dict(model=name, variant="base", cares=True, sigma=100.0, T=1000.0)) for name, _, _ in MODELS}
     ctx.notes.append("np.min over time in determine_reliability is not observable: tube_log_reliability returns the same sum for every time row")
 
     # ---- outcomes ----
@@ -857,10 +960,11 @@ def run(ctx):
         # one violation per predicate kind, smallest input first
         seen = set()
         for j, bad in sorted(fails, key=lambda x: size_of(x[0])):
-            if j["pred"] in seen:
+            sig = j.get("signature", "c05:" + j["pred"])
+            if sig in seen:
                 continue
-            seen.add(j["pred"])
-            ctx.violation("real srlife.damage: " + bad[0], dict(j, failures=bad), signature="c05:" + j["pred"])
+            seen.add(sig)
+            ctx.violation("real srlife.damage: " + bad[0], dict(j, failures=bad), signature=sig)
     # exceptions of the real code in the correspondence runs are failing inputs too
     if crashed and not fails:
         ci, why = crashed[0]
@@ -880,7 +984,7 @@ def run(ctx):
 
 
 def replay(obj):
-    p = obj["replay"]
+    p = dict(obj["replay"])
     if "pred" not in p:
         print("replay names no input:", p)
         return 1
